@@ -148,4 +148,3 @@ Qed.
 Theorem gauss_lindep n t : lindep (2 * n) t -> lindep (2 * n) (gauss n t).
 Proof. intro H. unfold gauss. apply gauss_aux_lindep. exact H. Qed.
 
-Print Assumptions gauss_lindep.
